@@ -26,6 +26,7 @@ CHECK = {
             "so raft's RaftConfig.* fields are swept at constant-1 | constant | constant+1 of its 5ms / 1ms / 1024 bounds and around lease <= heartbeat <= election); "
             "val also: case kind zero - LoadJSON / Validate on a never-initialised object of every section type, also after a refused unparsable load, must not panic; file also: a Manager file with an unknown component, a "
             "null unknown component, an unknown top-level key, an undefined registered component and duplicate keys (case kind mgr), "
+            "env also (round 8 final): case kind envk - the raw TEXT of a variable per envconfig decode kind of the field (ParseBool spellings, ParseInt/ParseUint base 0 with range, comma-split slices, k:v maps; well-formed and malformed) against the model EnvK.envDecode: a text envconfig must refuse gives an error and leaves the whole section unchanged, the saved value of direct rows equals the decoded one; "
             "env also (round 8): per field two well-formed, one zero and one malformed value through config.Manager with all 14 sections registered - "
             "Manager.LoadJSON then Manager.ApplyEnvVars (menv), and a file holding another accepted value written to disk then Manager.LoadJSONFileAndEnv (menvfile); "
             "ident: one config.Identity over operation sequences (LoadJSON / LoadJSONFromFile of every id x key token pair: 3 generated key pairs, "
